@@ -10,6 +10,7 @@ mode / return-format configurations and evaluates the property's oracle on the r
 The canonical result handed to the Coq model comparison is [J_fwd, J_rev, J_fwd_scaled, J_rev_scaled, state]
 of the primary configuration.
 """
+import json
 import os
 import sys
 from fractions import Fraction as F
@@ -106,19 +107,22 @@ def handle(c):
         rf = [float(abs(r['unit_scaler'] * (t if ds else 1))) for r in flat['responses'] for t in sg.total_scaler(r)]
         cf = [float(abs(d['unit_scaler'] * (t if ds else 1))) for d in flat['desvars'] for t in sg.total_scaler(d)]
         scale_max[ds] = max(rf + [1.0]) / min(cf + [1.0])
-    out = {'ok': True, 'msg': '', 'sig': '', 'kind': kind, 'exact': sexact, 'vacuous': 0, 'ncfg': 0}
+    out = {'ok': True, 'msg': '', 'sig': '', 'kind': kind, 'exact': sexact, 'vacuous': 0, 'ncfg': 0,
+           'rhs_stats': {}}
     res = [None, None, None, None, None]
 
     def fail(cfg, what):
         if out['ok']:
             out['ok'] = False
             out['msg'] = '%s | cfg=%s' % (what, cfg)
-            out['sig'] = 'totals:%s:%s:%s' % (cfg.get('lin'), cfg.get('mode'), cfg.get('jac'))
+            out['sig'] = 'totals:%s:%s:%s%s' % (cfg.get('lin'), cfg.get('mode'), cfg.get('jac'),
+                                                ':rhs_checking' if cfg.get('rhs') else '')
             out['cfg'] = cfg
 
     probs = {}
     for ci, cfg in enumerate(c['cfgs']):
-        key = (cfg.get('mode'), cfg.get('lin'), cfg.get('jac'), cfg.get('nl'), cfg.get('mf', True))
+        key = (cfg.get('mode'), cfg.get('lin'), cfg.get('jac'), cfg.get('nl'), cfg.get('mf', True),
+               json.dumps(cfg.get('rhs'), sort_keys=True))
         try:
             if key not in probs:
                 p = ob.build(spec, cfg)
@@ -130,6 +134,9 @@ def handle(c):
             out['vacuous'] += 1          # a solver did not converge: the property's premise is false
             continue
         out['ncfg'] += 1
+        if isinstance(cfg.get('rhs'), dict) and cfg['rhs'].get('collect_stats'):
+            for kk, vv in ob.rhs_stats(p).items():
+                out['rhs_stats'][kk] = out['rhs_stats'].get(kk, 0) + vv
         ds = bool(cfg.get('driver_scaling', False))
         exact = sexact and cfg_exact(cfg)
         iterative = spec['coupled'] or not str(cfg.get('lin', '')).startswith('direct')
